@@ -268,7 +268,10 @@ def render_decl(d: dict, mod: dict, defined: set) -> str:
                 params.append(f"{f['n']}: {ann}")
         reject = d.get("reject")
         out.append(f"    def __init__(self{''.join(', ' + p for p in params)}):")
-        if reject:
+        if reject and reject.get("exc") == "StopIteration":
+            # the classic bare next() over a search that finds nothing
+            out.append(f"        if {reject['n']} == {_lit_src(reject['v'])}: next(x for x in () if x)")
+        elif reject:
             out.append(f"        if {reject['n']} == {_lit_src(reject['v'])}: raise ValueError('rejected')")
         for nm in names:
             out.append(f"        self.{nm} = {nm}")
@@ -450,8 +453,11 @@ def _build(v, w):
             fields = {k: _build(x, w) for k, x in lv["f"].items()}
             ek = lv["edge"]
             if inner is None:
-                link = {"union": None, "list": [], "dict": {}, "tuplevar": ()}[ek]
-                link = link.copy() if hasattr(link, "copy") else link
+                if "terminal" in lv:
+                    link = _build(lv["terminal"], w)
+                else:
+                    link = {"union": None, "list": [], "dict": {}, "tuplevar": ()}[ek]
+                    link = link.copy() if hasattr(link, "copy") else link
             else:
                 link = {"union": lambda y: y, "list": lambda y: [y], "dict": lambda y: {"k": y}, "tuplevar": lambda y: (y,)}[ek](inner)
             fields[lv["edge_field"]] = link
@@ -570,15 +576,13 @@ def _canon(x, un, path):
     if isinstance(x, re.Pattern):
         return ["re.Pattern", x.pattern if isinstance(x.pattern, str) else x.pattern.hex(), x.flags]
     if isinstance(x, datetime.datetime):
-        off = x.utcoffset()
-        return [qn(t), x.year, x.month, x.day, x.hour, x.minute, x.second, x.microsecond,
-                None if off is None else off.total_seconds()]
+        off = _safe_offset(x)
+        return [qn(t), x.year, x.month, x.day, x.hour, x.minute, x.second, x.microsecond, off]
     if isinstance(x, datetime.date):
         return [qn(t), x.year, x.month, x.day]
     if isinstance(x, datetime.time):
-        off = x.utcoffset()
-        return [qn(t), x.hour, x.minute, x.second, x.microsecond,
-                None if off is None else off.total_seconds()]
+        off = _safe_offset(x)
+        return [qn(t), x.hour, x.minute, x.second, x.microsecond, off]
     if isinstance(x, datetime.timedelta):
         return [qn(t), x.days, x.seconds, x.microseconds]
     if isinstance(x, (bool, int, float, str, bytes)):  # subclasses of primitives
@@ -626,6 +630,15 @@ def _canon(x, un, path):
     if isinstance(x, collections.abc.Iterator):
         return ["iterator", qn(t)]
     return ["opaque", qn(t)]
+
+
+def _safe_offset(x):
+    """UTC offset in seconds; a tzinfo that cannot answer (a parser accepted '+25:00') is rendered, not raised."""
+    try:
+        off = x.utcoffset()
+    except Exception as e:  # noqa: BLE001
+        return f"<utcoffset raises {type(e).__name__}>"
+    return None if off is None else off.total_seconds()
 
 
 class _Missing:
